@@ -460,8 +460,16 @@ func init() {
 				}
 				perms = append(perms, rev)
 			}
+			type cq struct{ q, opt string }
+			var cqs []cq
 			for _, q := range c11Queries {
-				ref := core.RunEngine(&core.Case{Q: q, Data: base, W: w, O: core.Opts{Optimizers: "none", Procs: 2}}, storeFor(&core.Case{Data: base}))
+				cqs = append(cqs, cq{q, "none"})
+			}
+			// with the default optimizers both operands share one merged select
+			cqs = append(cqs, cq{`a{l="0"} + a`, ""}, cq{`sum(a{l="1"}) / sum(a)`, ""}, cq{`a + on (m) group_left a{l="0"}`, ""})
+			for _, qo := range cqs {
+				q := qo.q
+				ref := core.RunEngine(&core.Case{Q: q, Data: base, W: w, O: core.Opts{Optimizers: qo.opt, Procs: 2}}, storeFor(&core.Case{Data: base}))
 				for _, pm := range perms {
 					for _, withJunk := range []bool{false, true} {
 						data := make([]core.SeriesSpec, 0, len(base)+3)
@@ -480,7 +488,7 @@ func init() {
 							if c.Expired() {
 								return
 							}
-							cs := &core.Case{Q: q, Data: data, W: w, O: core.Opts{Optimizers: "none", Procs: pr}, Note: fmt.Sprintf("n=%d perm=%v junk=%v", n, pm, withJunk)}
+							cs := &core.Case{Q: q, Data: data, W: w, O: core.Opts{Optimizers: qo.opt, Procs: pr}, Note: fmt.Sprintf("n=%d perm=%v junk=%v", n, pm, withJunk)}
 							if !c.Progress(cs) {
 								continue
 							}
